@@ -42,6 +42,8 @@ def run(chk):
     # "rolling files are written": the event write itself (write_all of the whole buffer under the recovery flag)
     from . import c10
     c10.write_event_rule(chk, P, "C07.R5:write_event")
+    from . import shapes
+    shapes.trigger_starts_unset(chk, P, "C07.R4:trigger-starts-unset")
     return chk
 
 
